@@ -370,7 +370,7 @@ def _classify_eval(case):
 
 def check_eval(ctx):
     rng = ctx.rng('eval')
-    per_span = ctx.pick(50, 700)
+    per_span = ctx.pick(150, 2500)
     lens = [5, 7] if ctx.quick else [3, 5, 7, 9]
     all_specs = []
     for n in lens:
